@@ -142,6 +142,17 @@ def main():
                     ops = [make(t1, p1, 0), make(t2, p2, 1)]
                     record(key, f"{p1}/{p2}", apply(fn, ops, True))
                 record(key, "param/param", in_function([t1, t2], fn))
+                # one literal operand next to a non-literal one: the outcome is a matter of types, not of the literal's value
+                if (t1[0] == "Const") != (t2[0] == "Const"):
+                    for v in (0, 1, -1, 2, -7, 2 ** 70):
+                        if v < 0 and "UInt" in (t1[1] if t1[0] == "Const" else t2[1]):
+                            continue
+                        try:
+                            lit = lambda t: CLS[t](bool(v) if t[1] == "Bool" else v)     # noqa
+                            ops = [lit(t1) if t1[0] == "Const" else make(t1, "direct", 0), lit(t2) if t2[0] == "Const" else make(t2, "direct", 1)]
+                        except Exception:      # noqa  (a literal that cannot be built is not an operand)
+                            continue
+                        record(key, f"literal={v}", apply(fn, ops, True))
     # if_else
     triples_provs = [(p, p, p) for p in provs] if mode == "quick" else list(itertools.product(provs, repeat=3))
     ife = lambda c, a, b: c.if_else(a, b)     # noqa
